@@ -85,3 +85,16 @@ chk('C08', 'other',
     'region preservation over Boolean senses.',
     'T4 syntax as written by the converter; tables of <= 4 volumes; known finding F2 (dangling boundary-condition ids) listed in known_findings.json',
     'symbolic execution of the real pipeline + structural validator; z3 Boolean equivalence for the pruning step', 'DESIGN.md 4/C08')
+
+chk('C04', 'other',
+    'Three layers, all decided by z3 / rational-function identity with the point symbolic. (1) TR cards -> 12 numbers: the real MIP and '
+    'Transformation normalisation on cards whose matrix is full or abbreviated (two rows/columns, row+column in the 9 placements, one row/column, '
+    'J placeholders, m=1) must give a proper rotation reproducing every supplied entry and the untouched displacement, for 6 (quick) / 29 (thorough) '
+    'exact rotations and for symbolic one-angle families R(c,s). (2) every elementary surface kind (incl. one-sheet cones, tori, point-defined, '
+    'SQ/GQ, generic C/K) with ALL card parameters and the displacement symbolic under a TR whose rotation is from the finite set or R(c,s): '
+    'p in neg(T4) <=> B(p-O) in neg(card). (3) TRCL/*TRCL decks by number and inline with implicit surfaces 1000*cell+surface through the '
+    'whole pipeline (translation validation).',
+    'reals for floats; rotations limited to the finite exact set and one-angle symbolic families (cones under symbolic angles only in the '
+    'thorough tier); MCNP TR semantics p_aux = B(p - O); T4 TRANSFORM semantics for rotated tori assumed; macrobody facets under TR are covered '
+    'through C03 (chain layer) + layer 3 decks',
+    'symbolic execution of the real Python code + rational-function identity + z3 nonlinear real arithmetic', 'DESIGN.md 4/C04')
